@@ -361,7 +361,12 @@ func (r restServerProtocol) prepareMarshalledRequest(op *operation, base []byte,
 		fields := msg.Descriptor().Fields()
 		contentType := msg.Get(fields.ByName("content_type")).String()
 		bytes := msg.Get(fields.ByName("data")).Bytes()
-		headers.Set("Content-Type", contentType)
+		if contentType != "" {
+			headers.Set("Content-Type", contentType)
+		} else {
+			// An empty media type is not a valid header value.
+			headers.Del("Content-Type")
+		}
 		// Copy: the data may alias the buffer the message was decoded from,
 		// which the caller releases; the result must be grown from base.
 		return append(base, bytes...), nil
